@@ -79,3 +79,125 @@ Example C06_nonvacuous :
   cm_states (receive_all c [new; old; new]) 7 = Some (mkState 2 6 9) /\
   cm_mode (receive_all c [new; other; new]) = CInvalid.
 Proof. vm_compute. split; reflexivity. Qed.
+
+(* ================================================================ DescriptionModificationReports *)
+From Coq Require Import Bool.
+From SDC Require Import Mdib.Consumer_Descr_Proofs.
+
+(* [C06_version_monotone], [C06_stale_noop], [C06_seq_change_invalidates] and [C06_invalid_is_frozen] above are
+   stated for every report, description modification reports included: a stale one is a no-op. *)
+
+(* published-only: whatever the description modification report (stale, duplicated, out of order, interrupted by
+   the KeyError of a CREATE of an existing handle), every descriptor / state / context state held afterwards is
+   the one held before or an item of one of the report's parts *)
+Theorem C06_descr_published_only : forall c vg parts,
+  let c' := fst (process c (RDescr vg parts)) in
+  (forall h d, cm_descrs c' h = Some d ->
+     cm_descrs c h = Some d \/ exists p, In p parts /\ In (h, d) (dp_descrs p)) /\
+  (forall h s, cm_states c' h = Some s ->
+     cm_states c h = Some s \/ exists p, In p parts /\ In (h, s) (dp_states p)) /\
+  (forall h s, cm_cstates c' h = Some s ->
+     cm_cstates c h = Some s \/ exists p, In p parts /\ In (h, s) (dp_cstates p)).
+Proof. exact descr_report_published_only. Qed.
+Print Assumptions C06_descr_published_only.
+
+(* no version counter goes back, PROVIDED no item of the report is older than the held one: the description
+   modification path has no StateVersion gate, only the MdibVersion gate *)
+Theorem C06_descr_no_regression : forall c vg parts,
+  let c' := fst (process c (RDescr vg parts)) in
+  (forall h d d', cm_descrs c h = Some d -> cm_descrs c' h = Some d' ->
+     (forall p x, In p parts -> In (h, x) (dp_descrs p) -> d_ver d <= d_ver x) -> d_ver d <= d_ver d') /\
+  (forall h s s', cm_states c h = Some s -> cm_states c' h = Some s' ->
+     (forall p x, In p parts -> In (h, x) (dp_states p) -> s_ver s <= s_ver x) -> s_ver s <= s_ver s') /\
+  (forall h s s', cm_cstates c h = Some s -> cm_cstates c' h = Some s' ->
+     (forall p x, In p parts -> In (h, x) (dp_cstates p) -> c_ver s <= c_ver x) -> c_ver s <= c_ver s').
+Proof. exact descr_report_no_regression. Qed.
+Print Assumptions C06_descr_no_regression.
+
+(* the proviso is necessary: a report with a current MdibVersion that carries an older state takes the
+   StateVersion back (witness: consumer at MdibVersion 10 holding state 7 with StateVersion 5; report with
+   MdibVersion 10, one UPDATE part for descriptor 7 with state 7 at StateVersion 3) *)
+Theorem C06_descr_ungated_refuted :
+  exists c vg parts h s s',
+    cm_ver c <= vg_ver vg /\ cm_mode c = CInitialized /\ vg_seq vg = cm_seq c /\ vg_inst vg = cm_inst c /\
+    cm_states c h = Some s /\ cm_states (fst (receive c (RDescr vg parts))) h = Some s' /\ s_ver s' < s_ver s.
+Proof. exact descr_report_ungated_regression. Qed.
+Print Assumptions C06_descr_ungated_refuted.
+
+(* the result is determined pointwise by the parts.  UPDATE part for one descriptor (what the provider emits):
+   the descriptor is replaced, listed states / context states replace the held ones (without version gate),
+   unknown ones are ignored, nothing else changes *)
+Theorem C06_descr_update_part : forall c h d S CS,
+  cm_descrs c h <> None -> NoDup (map fst S) -> NoDup (map fst CS) ->
+  (d_kind d = K_CTX -> forall ch s, cm_cstates c ch = Some s -> c_dh s = h -> alist_has CS ch = true) ->
+  exists c', apply_part c (mkDPart 1 [(h, d)] S CS) = (c', [(N_UPD, h)], false) /\
+  (forall y, cm_descrs c' y = if Z.eqb h y then Some d else cm_descrs c y) /\
+  (forall y, cm_states c' y = match alist_get S y with Some s => known_val (cm_states c y) s | None => cm_states c y end) /\
+  (forall y, cm_cstates c' y = match alist_get CS y with Some s => known_val (cm_cstates c y) s | None => cm_cstates c y end).
+Proof. exact upd_part_spec. Qed.
+Print Assumptions C06_descr_update_part.
+
+(* CREATE part for one descriptor: added with its states; a CREATE of a held handle abandons the part untouched *)
+Theorem C06_descr_create_part : forall c h d S CS,
+  cm_descrs c h = None -> NoDup (map fst S) -> NoDup (map fst CS) ->
+  exists c', apply_part c (mkDPart 0 [(h, d)] S CS) = (c', [(N_NEW, h)], false) /\
+  (forall y, cm_descrs c' y = if Z.eqb h y then Some d else cm_descrs c y) /\
+  (forall y, cm_states c' y = match alist_get S y with Some s => Some s | None => cm_states c y end) /\
+  (forall y, cm_cstates c' y = match alist_get CS y with Some s => Some s | None => cm_cstates c y end).
+Proof. exact crt_part_spec. Qed.
+Print Assumptions C06_descr_create_part.
+
+Theorem C06_descr_create_existing : forall c h d S CS,
+  cm_descrs c h <> None -> apply_part c (mkDPart 0 [(h, d)] S CS) = (c, [], true).
+Proof. exact crt_part_existing. Qed.
+Print Assumptions C06_descr_create_existing.
+
+(* DELETE part for one descriptor: exactly the descriptors of the subtree below it, exactly their states, exactly
+   the context states that belong to them are removed and notified; everything else - tables, MdibVersion,
+   sequence / instance id, mode - is unchanged *)
+Theorem C06_descr_delete_part : forall c h d S CS modi, modi <> 0 -> modi <> 1 ->
+  let sub := csubtree c h in
+  let r := apply_part c (mkDPart modi [(h, d)] S CS) in
+  let c' := fst (fst r) in
+  snd r = false /\ snd (fst r) = map (fun x => (N_DEL, x)) sub /\
+  (forall x, cm_descrs c' x = if memz x sub then None else cm_descrs c x) /\
+  (forall x, cm_states c' x = if memz x sub then None else cm_states c x) /\
+  (forall ch, cm_cstates c' ch =
+              match cm_cstates c ch with
+              | Some s => if memz ch (cm_cdom c) && memz (c_dh s) sub then None else Some s
+              | None => None
+              end) /\
+  cm_ver c' = cm_ver c /\ cm_seq c' = cm_seq c /\ cm_inst c' = cm_inst c /\ cm_mode c' = cm_mode c.
+Proof. exact del_part_frame. Qed.
+Print Assumptions C06_descr_delete_part.
+
+(* the subtree is what lies below the handle along parent handles (for a consumer whose lookups enumerate what
+   they hold); a DELETE part with several descriptors removes their subtrees one after the other *)
+Theorem C06_descr_subtree : forall c root x, cdom_ok c ->
+  In x (csubtree c root) <-> cm_descrs c x <> None /\ reachR (cm_descrs c) x root.
+Proof. exact csubtree_In_sem. Qed.
+Print Assumptions C06_descr_subtree.
+
+Theorem C06_descr_delete_parts : forall c p, dp_mod p <> 0 -> dp_mod p <> 1 ->
+  fst (fst (apply_part c p)) = fold_left (fun c' e => crm_sub c' (fst e)) (dp_descrs p) c /\ snd (apply_part c p) = false.
+Proof. exact del_part_eq. Qed.
+Print Assumptions C06_descr_delete_parts.
+
+(* the lookups stay consistent under every report of every kind: whatever is held can be enumerated *)
+Theorem C06_lookups_consistent : forall c r, cdom_ok c -> cdom_ok (fst (receive c r)).
+Proof. exact receive_cdom_ok. Qed.
+Print Assumptions C06_lookups_consistent.
+
+Example C06_descr_nonvacuous :
+  let c := mkCMdib (fun h => alist_get [(1, mkDescr None K_COMP 0 10); (2, mkDescr (Some 1) K_METRIC 0 11);
+                                        (3, mkDescr (Some 2) K_ALERT 0 12); (5, mkDescr (Some 1) K_CTX 0 13)] h)
+                   (fun h => alist_get [(1, mkState 0 0 20); (2, mkState 0 3 21); (3, mkState 0 1 22)] h)
+                   (fun h => alist_get [(50, mkCState 5 0 2 2 (Some 1) None 30)] h)
+                   10 1 1 CInitialized [] [1; 2; 3; 5] [50] in
+  let del := RDescr (mkVg 11 1 1) [mkDPart 2 [(2, mkDescr (Some 1) K_METRIC 0 11)] [] []] in
+  let c' := fst (receive c del) in
+  csubtree c 2 = [2; 3] /\ cm_descrs c' 2 = None /\ cm_descrs c' 3 = None /\ cm_states c' 3 = None /\
+  cm_states c' 1 = Some (mkState 0 0 20) /\ cm_cstates c' 50 = Some (mkCState 5 0 2 2 (Some 1) None 30) /\
+  snd (receive c del) = [(N_DEL, 2); (N_DEL, 3)] /\
+  fst (receive c' del) = set_vg c' (mkVg 11 1 1).
+Proof. vm_compute. repeat split. Qed.
